@@ -57,6 +57,12 @@ fn main() {
                 2
             }
         },
+        "rules" => {
+            // {id: rule_text} for tools/mkmanifest.py
+            let m: serde_json::Map<String, serde_json::Value> = props::all().iter().map(|p| (p.id().to_string(), serde_json::Value::String(p.rule_text()))).collect();
+            println!("{}", serde_json::Value::Object(m));
+            0
+        }
         "show" => {
             // run one case (a replay file or a bare case) and print verdict + trace sample
             runner::install_panic_hook();
@@ -85,7 +91,9 @@ fn main() {
             let script = args.get(3).cloned().unwrap_or_default();
             let mode = if args.get(4).map(|s| s == "blocking").unwrap_or(false) { exec_a::Mode::Blocking } else { exec_a::Mode::Ticking };
             let ops = ops::parse_script(&script);
-            match exec_a::Stepper::new_filtered(&cfg, &[], mode) {
+            // KSIM_FILE="name=path" provides one includable file (zippy dictionary, include)
+            let files: Vec<(String, String)> = std::env::var("KSIM_FILE").ok().and_then(|v| v.split_once('=').map(|(n, p)| (n.to_string(), std::fs::read_to_string(p).unwrap_or_default()))).into_iter().collect();
+            match exec_a::Stepper::new_filtered(&cfg, &files, mode) {
                 Ok(mut st) => {
                     st.run_ops(&ops);
                     println!("{}", trace::outs_short(&st.trace.outs));
